@@ -184,6 +184,7 @@ pub fn sweep_day(
         crosscheck: false,
         collect_samples: false,
         lean: true,
+        run: u64::MAX,
     };
     let mut log = Fnv::new();
     let offsets = [0i32, 3600, -18_000, 19_800, 45_900, -43_200];
